@@ -64,7 +64,7 @@ def build():
             ("before_stmt", "for ip in", 1, "proof { assert(domains@.take(domains@.len() as int) =~= domains@); assert(strs(ips@.take(0)) =~= Seq::<Seq<char>>::empty()); }"),
             ("loop_end", None, 3, "proof { let k = it3.index@; assert(ips@.take(k + 1) =~= ips@.take(k).push(ips@[k])); assert(strs(ips@.take(k + 1)) =~= strs(ips@.take(k)).push(ips@[k]@)); }"),
             ("before_stmt", "let san = san.build", 1, "proof { assert(ips@.take(ips@.len() as int) =~= ips@); }"),
-            ("before_stmt", "Ok(Csr", 1, "proof { assert(builder.view@.exts =~= seq![ExtView::San { dns: strs(domains@), ip: strs(ips@) }]); }"),
+            ("before_tail", None, 1, "proof { assert(builder.view@.exts =~= seq![ExtView::San { dns: strs(domains@), ip: strs(ips@) }]); }"),
             ])})
     u.verify(X, "gen_certificate", "crypto::openssl_certificate", props=["C16"], fns={"gen_certificate": FnSpec(ret="r", sig="""
     requires acme_ext@.len() > 0,
@@ -93,7 +93,7 @@ def build():
         }"""),
             ("after_stmt", "let mut v: Vec<&str>", 1, "let ghost parts0 = v; proof { if parts0@.len() == 2 { gname = parts0@[0]@; gvalue = parts0@[1]@; } }"),
             ("before_stmt", "if !acme_ext", 1, "let ghost mut gname: Seq<char> = Seq::empty(); let ghost mut gvalue: Seq<char> = Seq::empty();"),
-            ("before_stmt", "Ok(cert)", 1, """
+            ("before_tail", None, 1, """
         proof {
             assert(builder.view@.exts =~= seq![ExtView::BasicConstraints, ExtView::San { dns: seq![domain@], ip: Seq::empty() },
                 ExtView::Custom { name: gname, value: gvalue }]);
